@@ -81,7 +81,7 @@ func (c *PublishHeader) WriteHTMLTo(w io.Writer) (int64, error) {
 	}
 
 	if c.options.ShowSurnames {
-		badge := core.NewCountBadge(getSurnames(c.document).Len())
+		badge := core.NewCountBadge(getSurnames(c.document, c.options.LivingVisibility).Len())
 		item := core.NewNavItem(
 			core.NewComponents(core.NewText("Surnames "), badge),
 			c.selectedTab == selectedSurnamesTab,
@@ -129,20 +129,28 @@ func (c *PublishHeader) WriteHTMLTo(w io.Writer) (int64, error) {
 // collected once, but they belong to one document. They must not be reused for
 // the next document that is published by the same process.
 var (
-	surnamesMutex    sync.Mutex
-	surnamesDocument *gedcom.Document
-	surnames         *gedcom.StringSet
+	surnamesMutex      sync.Mutex
+	surnamesDocument   *gedcom.Document
+	surnamesVisibility LivingVisibility
+	surnames           *gedcom.StringSet
 )
 
-func getSurnames(document *gedcom.Document) *gedcom.StringSet {
+func getSurnames(document *gedcom.Document, visibility LivingVisibility) *gedcom.StringSet {
 	surnamesMutex.Lock()
 	defer surnamesMutex.Unlock()
 
-	if surnames == nil || surnamesDocument != document {
+	if surnames == nil || surnamesDocument != document ||
+		surnamesVisibility != visibility {
 		surnames = gedcom.NewStringSet()
 		surnamesDocument = document
+		surnamesVisibility = visibility
 
 		for _, individual := range document.Individuals() {
+			// The surname of a living individual is part of their name.
+			if individual.IsLiving() && visibility != LivingVisibilityShow {
+				continue
+			}
+
 			surname := individual.Name().Surname()
 			if surname != "" {
 				surnames.Add(surname)
